@@ -248,8 +248,12 @@ class AsyncTask(futures.FutureBase):
             # into the generator, we'll already have set the frame info.
             if self._frame is None:
                 tb = sys.exc_info()[2]
-
-                while tb.tb_next is not None:
+                # Stay within this task's own synchronous frames: a frame of asynq itself means
+                # that another async function was called synchronously, and the frames below it
+                # belong to that function's task, not to this one.
+                while tb.tb_next is not None and not debug._should_skip_frame(
+                    tb.tb_next.tb_frame
+                ):
                     tb = tb.tb_next
                 self._frame = tb.tb_frame
             self._generator = None
